@@ -1,5 +1,6 @@
 """dev helper: python3-vt dev.py <mir_dir> <module> [name-regex] [tier]"""
-import json, os, re, subprocess, sys, time, importlib
+import json, os, re, subprocess, sys, time, importlib, functools
+print = functools.partial(print, flush=True)
 HERE = os.path.dirname(os.path.abspath(__file__))
 sys.path.insert(0, HERE); sys.path.insert(0, os.path.join(HERE, "harness"))
 mir_dir, mod = sys.argv[1], sys.argv[2]
